@@ -46,6 +46,11 @@ fn rec_ops(m: &HashMap<String, String>) {
     let out = std::io::stdout();
     let mut out = std::io::BufWriter::new(out.lock());
     let skip = geti(m, "skip", 0) as u64;
+    match gets(m, "warm", "none") {
+        "f64" => ops::warm_up(false),
+        "f32" => ops::warm_up(true),
+        _ => {}
+    }
     for i in skip..count {
         let fam = fams[(i as usize) % fams.len()];
         let sd = seed.wrapping_mul(1_000_003).wrapping_add(i);
@@ -57,6 +62,8 @@ fn rec_ops(m: &HashMap<String, String>) {
             "xform" => ops::sess_xform(sid0 + i, fam, sd, &o),
             "far" => ops::sess_far(sid0 + i, fam, sd, &o),
             "f32" => ops::sess_f32(sid0 + i, fam, sd, &o),
+            "pf32" => ops::sess_ptype(sid0 + i, fam, sd, &o, true),
+            "pf64" => ops::sess_ptype(sid0 + i, fam, sd, &o, false),
             "chain" => ops::sess_chain(sid0 + i, fam, sd, &o, false),
             "chain3" => ops::sess_chain(sid0 + i, fam, sd, &o, true),
             "pure" => ops::sess_pure(sid0 + i, fam, sd, &o),
